@@ -98,6 +98,8 @@ type Upstream struct {
 
 	upstreamChunkResultChs map[uint32]chan *message.UpstreamChunkResult
 	receivedAck            *sync.Cond
+
+	closing uint32 // 1 once a close has begun to end the stream
 }
 
 // Stateは、Upstreamが保持している内部の状態を返却します。
@@ -156,10 +158,14 @@ func (u *Upstream) closeWithErrorWithoutLock(ctx context.Context, causeError err
 }
 
 func (u *Upstream) doCloseWithError(ctx context.Context, causeError error, holdsLock bool, opts ...UpstreamCloseOption) error {
-	defer u.cancel()
 	if u.isClosed() {
 		return nil
 	}
+	if !atomic.CompareAndSwapUint32(&u.closing, 0, 1) {
+		// the close under way ends the stream (and reports it closed) when it is done
+		return errors.New("already closing")
+	}
+	defer u.cancel()
 
 	opt := defaultUpstreamCloseOption
 	for _, v := range opts {
@@ -258,6 +264,10 @@ LOOP:
 	}
 	u.receivedAck.L.Unlock()
 	return err
+}
+
+func (u *Upstream) isClosing() bool {
+	return atomic.LoadUint32(&u.closing) == 1
 }
 
 func (u *Upstream) isClosed() bool {
